@@ -239,20 +239,20 @@ def coqchk(pid, timeout=1800):
 
 # ---------------------------------------------------------------- model runner
 
-def model_build():
-    """(Re)build the OCaml runner of the extracted hub when model.ml changed."""
-    d = os.path.join(BUILD, "ocaml")
+def model_build(pid):
+    """(Re)build the OCaml runner of the property's extracted hub entry points when they changed."""
+    d = os.path.join(BUILD, "ocaml", pid)
     os.makedirs(d, exist_ok=True)
-    src_ml = os.path.join(COQ, "model.ml")
+    src_ml = os.path.join(COQ, "model_%s.ml" % pid)
     exe = os.path.join(d, "model_run")
     drv = os.path.join(VERIF, "ocaml", "driver.ml")
     if not os.path.exists(src_ml):
-        return None, "coq/model.ml missing (extraction did not run)"
+        return None, "coq/model_%s.ml missing (extraction did not run)" % pid
     newest = max(os.path.getmtime(src_ml), os.path.getmtime(drv))
     if os.path.exists(exe) and os.path.getmtime(exe) >= newest:
         return exe, ""
-    for f in ("model.ml", "model.mli"):
-        with open(os.path.join(COQ, f), "rb") as a, open(os.path.join(d, f), "wb") as b:
+    for f, g in (("model_%s.ml" % pid, "model.ml"), ("model_%s.mli" % pid, "model.mli")):
+        with open(os.path.join(COQ, f), "rb") as a, open(os.path.join(d, g), "wb") as b:
             b.write(a.read())
     with open(drv, "rb") as a, open(os.path.join(d, "driver.ml"), "wb") as b:
         b.write(a.read())
@@ -413,7 +413,7 @@ def main(argv):
     import pin
     for msg in pin.compare(pid):
         problems.append({"kind": "proof", "what": {"pinned": msg}})
-    targets = ["properties/%s.vo" % pid, "extract/Extract.vo"] + P.get("extra_vo", [])
+    targets = ["properties/%s.vo" % pid, "extract/Extract%s.vo" % pid] + P.get("extra_vo", [])
     with Lock():
         gen.gen_corr()
         gen.gen_project()
@@ -425,7 +425,7 @@ def main(argv):
             assum, aerr = print_assumptions(pid, names)
         else:
             assum, aerr = {n: "missing" for n in names}, "build failed"
-        exe_model, merr = model_build() if os.path.exists(os.path.join(COQ, "model.ml")) else (None, "no model.ml")
+        exe_model, merr = model_build(pid)
         if exe_model is not None:
             # private copy: a concurrent check may rebuild the shared runner
             priv = os.path.join(workdir, "model_run")
@@ -619,7 +619,7 @@ def do_replay(pid, P, path):
         return 2
     rc, out, err = sh([exe, "--replay", body["case"]] + run.get("args", []), 600, env=run.get("env", {}))
     print("implementation:\n" + out)
-    exe_model, _ = model_build()
+    exe_model, _ = model_build(pid)
     if exe_model and run.get("model", True):
         wd = os.path.join(OUT, "run", pid)
         os.makedirs(wd, exist_ok=True)
